@@ -23,7 +23,7 @@ func runC03Crossing(c *Ctx) {
 	keys := []string{"$0.X", "$0.Y", "$1.a.X", "$1.a.Y", "$1.b.X", "$1.b.Y"}
 	runK4Spec(c, k4spec{rule: "C03.crossing", fn: "geom.hasCrossing", construct: "ray/segment crossing", num: keys, vals: []float64{0, 1, 2},
 		inline: []string{"geom.orientation", "geom.(XY).Sub", "geom.(XY).Cross", "geom.(line).uncheckedEnvelope", "geom.(Envelope).Contains", "geom.fastMin", "geom.fastMax", "geom.newUncheckedEnvelope", "geom.(Envelope).IsEmpty", "geom.(Envelope).Min", "geom.(Envelope).Max", "geom.sortFloat64Pair", "geom.(XY).validate"},
-		what: "crossing: lower.Y <= pt.Y < upper.Y and the segment is strictly left of the point at that height; onLine: the point is on the closed segment",
+		what:   "crossing: lower.Y <= pt.Y < upper.Y and the segment is strictly left of the point at that height; onLine: the point is on the closed segment",
 		valid: func(m *Model) bool {
 			return m.Num["$1.a.X"] != m.Num["$1.b.X"] || m.Num["$1.a.Y"] != m.Num["$1.b.Y"]
 		},
@@ -524,8 +524,47 @@ func runC04Order(c *Ctx) {
 			}
 		})
 	}
-	if nDecode < 4 {
-		c.Errorf("only %d fixed-width decodes found in the WKB parser, expected 4", nDecode)
+	if nDecode < 2 {
+		c.Errorf("only %d fixed-width decodes found in the WKB parser, expected >= 2", nDecode)
+	}
+	// a float64 is one 8-byte unit of the stream: the bits handed to math.Float64frombits come straight from a
+	// 64-bit decode under the byte-order mark — never from two 32-bit words put together (their order would have
+	// to follow the byte order too)
+	nBits := 0
+	for _, f := range c.P.Funcs {
+		if pkgOf(f) != "geom" || !strings.Contains(FuncName(f), "wkbParser") {
+			continue
+		}
+		fn := FuncName(f)
+		eachCall(f, func(ci ssa.CallInstruction) {
+			if calleeName(ci) != "math.Float64frombits" {
+				return
+			}
+			nBits++
+			var direct func(v ssa.Value, d int) bool
+			direct = func(v ssa.Value, d int) bool {
+				if d > 4 {
+					return false
+				}
+				switch x := v.(type) {
+				case *ssa.Phi:
+					for _, e := range x.Edges {
+						if !direct(e, d+1) {
+							return false
+						}
+					}
+					return len(x.Edges) > 0
+				case *ssa.Call:
+					n := calleeName(x)
+					return strings.HasSuffix(n, "Endian).Uint64")
+				}
+				return false
+			}
+			c.Check(direct(ci.Common().Args[0], 0), ci.Pos(), fn, "float64 from one 64-bit decode", "the bits come straight from bigEndian/littleEndian.Uint64", "the bits of a float64 are assembled from smaller pieces instead of one 64-bit decode under the byte-order mark: the order of the pieces is right for one byte order only")
+		})
+	}
+	if nBits < 1 {
+		c.Errorf("no math.Float64frombits in the WKB parser: how ordinates are decoded is unknown to this rule")
 	}
 
 	// (b) parseByteOrder, decided per value of the mark: the edges of the
